@@ -47,6 +47,12 @@ pub struct Case {
   /// is still about the source
   #[serde(default)]
   status_take: usize,
+  /// Status target: an operator above `complete_status()` whose output
+  /// terminates exactly when the subject does (0 none, 1 collect, 2 last,
+  /// 3 reduce, 4 buffer_with_count(2), 5 take_last(1), 6 map) - the status's
+  /// source is that operator's output
+  #[serde(default)]
+  status_pre: u8,
 }
 
 pub struct C14Des;
@@ -112,7 +118,8 @@ impl Scenario for C14Des {
       acts.push(Act::Poll);
     }
     let status_take = if target == Target::Status && rng.chance(1, 3) { rng.range(1, 2) } else { 0 };
-    serde_json::to_value(Case { target, threads_flavour: rng.chance(1, 3), acts, status_take }).unwrap()
+    let status_pre = if target == Target::Status && rng.chance(1, 2) { rng.range(1, 6) as u8 } else { 0 };
+    serde_json::to_value(Case { target, threads_flavour: rng.chance(1, 3), acts, status_take, status_pre }).unwrap()
   }
 
   fn run(&self, case: &Value) -> Result<Outcome, String> {
@@ -121,6 +128,32 @@ impl Scenario for C14Des {
     // sources: one handle kept per potential terminal (subjects are consumed by terminals)
     let mut local = Subject::<'static, Val, E>::default();
     let mut shared_s = SubjectThreads::<Val, E>::default();
+    macro_rules! status_tgt {
+      ($src:expr) => {{
+        let l = ProbeLog::new(false);
+        macro_rules! fin {
+          ($o:expr) => {{
+            let (o, st) = $o.complete_status();
+            if case.status_take > 0 {
+              o.take(case.status_take).actual_subscribe(Probe(l.clone()));
+            } else {
+              o.actual_subscribe(Probe(l.clone()));
+            }
+            st
+          }};
+        }
+        let st = match case.status_pre {
+          0 => fin!($src),
+          1 => fin!($src.collect::<Vec<Val>>().map(Val::L)),
+          2 => fin!($src.last()),
+          3 => fin!($src.reduce(|a: Val, v: Val| a + v)),
+          4 => fin!($src.buffer_with_count(2).map(Val::L)),
+          5 => fin!($src.take_last(1)),
+          _ => fin!($src.map(|v: Val| v)),
+        };
+        Tgt::Status(st, l)
+      }};
+    }
     let mut tgt = match (&case.target, case.threads_flavour) {
       (Target::ToFuture, false) => Tgt::Fut(Box::pin(local.clone().to_future())),
       (Target::ToFuture, true) => Tgt::Fut(Box::pin(shared_s.clone().to_future())),
@@ -132,33 +165,15 @@ impl Scenario for C14Des {
       (Target::CollectFuture, true) => {
         Tgt::Fut(Box::pin(shared_s.clone().collect::<Vec<Val>>().map(|v| Val::L(v)).to_future()))
       }
-      (Target::Status, false) => {
-        let (o, st) = local.clone().complete_status();
-        let l = ProbeLog::new(false);
-        if case.status_take > 0 {
-          o.take(case.status_take).actual_subscribe(Probe(l.clone()));
-        } else {
-          o.actual_subscribe(Probe(l.clone()));
-        }
-        Tgt::Status(st, l)
-      }
-      (Target::Status, true) => {
-        let (o, st) = shared_s.clone().complete_status();
-        let l = ProbeLog::new(false);
-        if case.status_take > 0 {
-          o.take(case.status_take).actual_subscribe(Probe(l.clone()));
-        } else {
-          o.actual_subscribe(Probe(l.clone()));
-        }
-        Tgt::Status(st, l)
-      }
+      (Target::Status, false) => status_tgt!(local.clone()),
+      (Target::Status, true) => status_tgt!(shared_s.clone()),
     };
     let flag = Arc::new(FlagWaker(std::sync::atomic::AtomicBool::new(false)));
     let waker = Waker::from(flag.clone());
-    if case.status_take > 8 || (case.status_take > 0 && case.target != Target::Status) {
+    if case.status_take > 8 || case.status_pre > 6 || ((case.status_take > 0 || case.status_pre > 0) && case.target != Target::Status) {
       return Err("bad shape".into());
     }
-    let site = format!("{:?}{}", case.target, if case.status_take > 0 { "+take" } else { "" });
+    let site = format!("{}{:?}{}", ["", "collect+", "last+", "reduce+", "buffer_with_count+", "take_last+", "map+"][case.status_pre.min(6) as usize], case.target, if case.status_take > 0 { "+take" } else { "" });
     let mut items: Vec<Val> = Vec::new();
     let mut terminal: Option<Ev> = None; // the first terminal
     let mut queue: std::collections::VecDeque<Ev> = Default::default(); // for streams
@@ -556,7 +571,7 @@ pub fn check_def() -> PropertyCheck {
     id: "C14",
     scenarios: vec![Box::new(C14Des), Box::new(C14Threads)],
     runs: (300_000, 16_000_000),
-    rule: "DES case = target (to_future, to_stream, collect.to_future, complete_status) x flavour x script of next/error/complete/poll incl. events after the terminal; thread case = waiter (wait_for_end | parked to_future | parked to_stream) vs producer (0-2 items then complete/error) under a seeded schedule over lock points and the StatusFuture check/register window; non-trivial = a poll returned Pending before the terminal, an event followed the terminal, the source failed (DES) / a decision had >1 eligible thread (threads)",
+    rule: "DES case = target (to_future, to_stream, collect.to_future, complete_status - optionally with collect / last / reduce / buffer_with_count / take_last / map above it and take(k) below it) x flavour x script of next/error/complete/poll incl. events after the terminal; thread case = waiter (wait_for_end | parked to_future | parked to_stream) vs producer (0-2 items then complete/error) under a seeded schedule over lock points and the StatusFuture check/register window; non-trivial = a poll returned Pending before the terminal, an event followed the terminal, the source failed (DES) / a decision had >1 eligible thread (threads)",
     assumptions: vec![
       "futures' mpsc channel and AtomicWaker operations are atomic simulator steps (only one simulated thread runs at a time)",
       "relaxed atomics in CompleteStatus are executed sequentially consistent",
